@@ -28,7 +28,8 @@ theorem nconcat_gate_open (cfg : NCfg) (P : List Char → POut) (path : List Nod
       concatNodes path b e (if cfg.enableNormalize then some (P acc).norm else none) := by
   unfold nconcat
   rw [hf]
-  cases hen : cfg.enableNormalize <;> simp [hpos, hlen]
+  have hnlt : ¬ e < b := by omega
+  cases hen : cfg.enableNormalize <;> simp [hpos, hlen, hnlt]
 
 /-- whatever `concat` returns: the path itself, or the path with `[b, e)` replaced by a token whose POS
 is the numeral POS and is the POS of `path[b]` -/
@@ -55,6 +56,8 @@ theorem nconcat_result (cfg : NCfg) (P : List Char → POut) {path : List Node} 
         cases hf'
         exact .inr ⟨f, l, nf, hf, hp, hl, hbe, he, rfl, hp⟩
       dsimp only at h
+      split at h
+      · cases h
       split at h
       · split at h
         · exact key _ h
